@@ -487,3 +487,10 @@ M2('c10-get-alias-none-arm-partial', 'C10', 'R4', [
 # parse_host: "exactly one colon" written with count(); the test the wrong way round sends every other host to int()
 M('c10-host-count-test-inverted', 'C10', 'R6', U, "    pos = host.rfind(':')\n    if (pos == -1) or (pos != host.find(':')):\n",
   "    if host.count(':') == 1:\n", also=('C09', 'C06'))
+# `acc = acc + <piece>` for `acc += <piece>` (refactor_fuzz variant augassign); the remainder starts one character late / the literal arm drops the '%'
+M('c10-selfadd-rest-from-3', 'C10', 'R4', U, _TRY_BA,
+  "        try:\n            decoded_uri = decoded_uri + (_HEX_TO_BYTE[token_partial] + token[3:])\n        except KeyError:\n"
+  "            decoded_uri = decoded_uri + (b'%' + token)\n", also=('C08',))
+M('c10-selfadd-literal-arm-drops-percent', 'C10', 'R4', U, _TRY_INLINE,
+  "            try:\n                reencoded_uri = reencoded_uri + (_HEX_TO_BYTE[token_partial] + token[2:])\n            except KeyError:\n"
+  "                reencoded_uri = reencoded_uri + token\n", also=('C08',))
